@@ -392,12 +392,18 @@ func PolKVLess(i, j PolKV) bool {
 	// We map the default order to +Inf, which compares equal to itself so,
 	// this "just works".
 	if i.Value.Order == j.Value.Order {
-		// Order is equal, use namespace/name/kind to break ties.
+		// Order is equal, use name, then namespace, then kind to break ties.
 		// We start with the most specific (name) to least specific (kind), as
-		// it's more intuitive to have policies sorted that way.
-		iStr := fmt.Sprintf("%s/%s/%s", i.Key.Name, i.Key.Namespace, i.Key.Kind)
-		jStr := fmt.Sprintf("%s/%s/%s", j.Key.Name, j.Key.Namespace, j.Key.Kind)
-		return iStr < jStr
+		// it's more intuitive to have policies sorted that way.  Compare field by
+		// field: joining the fields with a separator would sort "a-b" before "a"
+		// because '-' and '.' sort before '/'.
+		if i.Key.Name != j.Key.Name {
+			return i.Key.Name < j.Key.Name
+		}
+		if i.Key.Namespace != j.Key.Namespace {
+			return i.Key.Namespace < j.Key.Namespace
+		}
+		return i.Key.Kind < j.Key.Kind
 	}
 	return i.Value.Order < j.Value.Order
 }
